@@ -153,6 +153,7 @@ func (n *vnode) info(name string) os.FileInfo {
 
 // vfs implements all handler interfaces; which optional ones are visible is decided by the wrapper types below.
 type vfs struct {
+	failPartial   bool    // a scripted failure of ReadAt / ListAt (failAt) comes WITH data: (n > 0, err)
 	closeErrEvery int     // > 0: the Close method of every object whose id is a multiple of it returns an error (it still releases the object)
 	reenter       bool    // handler objects call the exported Request API (Context, WithContext) from inside their methods, as a real handler may
 	badBytes      []int   // handler ReadAt / WriteAt calls whose range contains one of these positions fail with "E@<lowest>"
@@ -328,6 +329,13 @@ func (o *vobj) ReadAt(p []byte, off int64) (int, error) {
 	}
 	if e := o.v.fail("R:" + itoa(int(off))); e != nil {
 		err = e
+		if o.v.failPartial {
+			o.v.mu.Lock()
+			if off < int64(len(o.node.data)) {
+				n = copy(p, o.node.data[off:])
+			}
+			o.v.mu.Unlock()
+		}
 	} else if b := o.v.firstBad(off, len(p), true, o.node); b >= 0 {
 		err = fmt.Errorf("E@%d", b)
 	} else {
@@ -408,7 +416,12 @@ func (o *vobj) ListAt(dst []os.FileInfo, off int64) (int, error) {
 	o.probe()
 	var n int
 	var err error
-	if s := o.v.listScript; s != nil && o.kind == "List" {
+	if e := o.v.fail("L:" + itoa(int(off))); e != nil {
+		err = e
+		if o.v.failPartial && off < int64(len(o.ents)) {
+			n = copy(dst, o.ents[off:])
+		}
+	} else if s := o.v.listScript; s != nil && o.kind == "List" {
 		n, err = s(o, dst, off)
 	} else {
 		if off >= int64(len(o.ents)) {
